@@ -90,6 +90,8 @@ class Recorder:
         return y
 
     def expm_krylov(self, afun, dt, v, *a, **k):
+        from vk.symx.harness import budget_check
+        budget_check()      # safe point: between two local problems
         if not self.sym:
             v = np.asarray(getattr(v, "array", v)).ravel()
             y, j = self.real[0](afun, dt, v, *a, **k)
@@ -102,6 +104,8 @@ class Recorder:
         return y, 1
 
     def solve_ivp(self, fun, t_span, y0, **k):
+        from vk.symx.harness import budget_check
+        budget_check()      # safe point: between two local problems
         if not self.sym:
             v = np.asarray(getattr(y0, "array", y0)).ravel()
             sol = self.real[1](fun, t_span, v, **k)
@@ -295,10 +299,6 @@ def native_replay(t0, H, dt, method, solver, two_site, rng_seed):
     return go
 
 
-class _TimeUp(BaseException):
-    """wall-clock budget of a case exhausted (BaseException: passes through the totality handlers; running out of time is not a property of the code)"""
-
-
 def _starts(name, n, seed, tier, density_operators):
     """deterministic start states of a (model, size): rebuilt identically in every worker"""
     from renormalizer.mps import Mpo
@@ -324,21 +324,9 @@ def _starts(name, n, seed, tier, density_operators):
 
 
 def worker(case, led):
-    import signal
+    from vk.symx.harness import run_with_budget
     name, n, sname, method, two_site, dts, density_operators, budget = case
-
-    def _alarm(*a):
-        raise _TimeUp()
-    old = signal.signal(signal.SIGALRM, _alarm)
-    signal.alarm(budget)
-    try:
-        _worker(case, led)
-    except _TimeUp:
-        led.calls = [c for c in led.calls if c[0] != "crash"]
-        led.extra["skipped"] = [[name, n, sname, method]]
-    finally:
-        signal.alarm(0)
-        signal.signal(signal.SIGALRM, old)
+    run_with_budget(budget, _worker, case, led, [name, n, sname, method])
 
 
 def _worker(case, led):
@@ -380,7 +368,7 @@ def _worker(case, led):
 
 def prove(run, key="C09", dts=(0.25, complex(0, -0.25)), density_operators=True):
     from vk.symx.harness import pool_cases
-    shapes = [("spinqn", 3), ("holstein", 3)] if run.tier == "quick" else [("spinqn", 3), ("spinqn", 4), ("holstein", 3), ("spin2qn", 3), ("spin", 3), ("spinqn", 2), ("spin", 1)]
+    shapes = [("spinqn", 3), ("holstein", 3), ("spinqn-flux", 3)] if run.tier == "quick" else [("spinqn", 3), ("spinqn", 4), ("holstein", 3), ("spin2qn", 3), ("spin", 3), ("spinqn", 2), ("spin", 1), ("spinqn-flux", 3), ("holstein-flux", 3)]
     cases = []
     for name, n in shapes:
         _, starts = _starts(name, n, run.seed, run.tier, density_operators)
